@@ -79,7 +79,7 @@ def run_one(entry):
             detail = f'exit={r.returncode} violations={len(viol)} by-obligation={len(ob_viol)}'
         else:
             ok = r.returncode == 0 and not viol
-            detail = f'exit={r.returncode} violations={len(viol)} ' + ' | '.join(l[:120] for l in r.stdout.splitlines() if l.startswith(('VIOLATION', 'UNDECIDED', 'CHECKER'))[:2])
+            detail = f'exit={r.returncode} violations={len(viol)} ' + ' | '.join([l[:120] for l in r.stdout.splitlines() if l.startswith(('VIOLATION', 'UNDECIDED', 'CHECKER'))][:2])
         return name, 'ok' if ok else 'FAIL', detail
     finally:
         shutil.rmtree(scr, ignore_errors=True)
